@@ -226,9 +226,9 @@ class LemmaScatterReproducible(Contract):
 
     def ensures(self, a, r):
         first, second = r
-        out = {"same_number_of_arrays": len(first) == len(second)}
+        out = {"history.same_number_of_arrays": len(first) == len(second)}
         for k, (x, y) in enumerate(zip(first, second)):
-            out["array%d_identical" % k] = All(x.shape[0] == y.shape[0], Forall(x.shape, lambda i, x=x, y=y: x.at(i) == y.at(i)))
+            out["history.array%d_identical" % k] = All(x.shape[0] == y.shape[0], Forall(x.shape, lambda i, x=x, y=y: x.at(i) == y.at(i)))
         return out
 
 
